@@ -2,7 +2,7 @@
    ring of at most maxEntries intervals, [entries == nil] versus an empty
    slice, and every uint16 wrap.  Executable; no proofs here. *)
 From Coq Require Import ZArith List Bool.
-From Galene Require Import Lib.Word Generated.Consts.
+From Galene Require Import Lib.Word Lib.Ring Generated.Consts.
 Import ListNotations.
 Open Scope Z_scope.
 
@@ -22,12 +22,6 @@ Definition entries_of (m : pmap) : list entry :=
 Definition zlen {A} (l : list A) : Z := Z.of_nat (length l).
 Definition nth_e (l : list entry) (i : Z) : entry :=
   nth (Z.to_nat i) l (mkE 0 0 0 0).
-Fixpoint set_nth {A} (n : nat) (x : A) (l : list A) : list A :=
-  match l, n with
-  | [], _ => []
-  | _ :: t, O => x :: t
-  | h :: t, S n' => h :: set_nth n' x t
-  end.
 
 Definition pm_reset (m : pmap) : pmap :=
   mkM (m_started m) 0 0 0 0 0 None.
@@ -142,7 +136,7 @@ Definition pm_reverse (m : pmap) (seqno : Z) : bool * Z * Z :=
   end.
 
 Definition pm_drop (m : pmap) (seqno pid : Z) : bool * pmap :=
-  if negb (seqno =? m_next m) then (false, m)
+  if negb (m_started m) || negb (seqno =? m_next m) then (false, m)
   else
     let es0 :=
       if zlen (entries_of m) =? 0
